@@ -768,6 +768,25 @@ class Gen:
                         self.add({'kind': 'bitfield', 'name': self.name('S'), 'base': W, 'fields': [f]}, 'F7x',
                                  'accept' if ok else 'reject', ['slice'])
 
+    def fam_positions(self):
+        """a field of a small width at EVERY position of the base: special cases keyed on one position (top bit, top-1,
+        bit 63/64, first bit above a storage boundary) cannot hide between sampled positions"""
+        q = self.tier == 'quick'
+        F = self.field
+        bases = [8, 16, 32, 64, 128, 24, 100] if q else [8, 16, 32, 64, 128, 7, 9, 24, 33, 65, 100, 127]
+        widths = [('bool', 1), ('u', 2)] if q else [('bool', 1), ('u', 1), ('u', 2), ('u', 3), ('i', 8), ('u', 8), ('u', 9)]
+        for W in bases:
+            for kind, n in widths:
+                if n > W:
+                    continue
+                fields = []
+                for lo in range(0, W - n + 1):
+                    ty = {'k': 'bool'} if kind == 'bool' else {'k': kind, 'n': n}
+                    e = ('s', lo) if n == 1 else ('r', lo, lo + n - 1)
+                    fields.append(F('p%d' % lo, ty, [e], acc='rw'))
+                self.add({'kind': 'bitfield', 'name': self.name('S'), 'base': W, 'fields': fields, 'light': True}, 'F1p', 'accept',
+                         ['every-position', '%s%d' % (kind, n), 'W=%d' % W])
+
     def fam_exhaustive(self):
         """thorough tier: ALL 128 base widths (full-width field + top-bit bool, defaults in rotation), and ALL contiguous
         layouts (lo, hi) on 8- and 16-bit storage"""
@@ -803,6 +822,7 @@ class Gen:
         self.fam_arrays(20 if q else 120)
         self.fam_lists(24 if q else 160)
         self.fam_structs(48 if q else 240)
+        self.fam_positions()
         if not q:
             self.fam_exhaustive()
         self.fam_enums()
